@@ -187,7 +187,7 @@ def inv(env, s, T):
     return {**padding_empty(env, s.grid_padded),
             "cells_nonnegative": s.grid_padded[:R, :C] >= 0,
             # colour ids: every placement uses max+1, so ids never exceed the number of pieces placed (rules out int32 wrap-around)
-            "cell_values_at_most_pieces_placed": s.grid_padded[:R, :C] <= s.step_count,
+            "cell_values_at_most_pieces_placed": jnp.max(s.grid_padded) <= s.step_count,
             "no_full_row_left": jnp.stack([~_all(occ[i]) for i in range(R)]),
             "tetromino_index_in_range": (s.tetromino_index >= 0) & (s.tetromino_index < 7),
             "new_tetromino_is_the_indexed_piece": s.new_tetromino == shown,
